@@ -76,6 +76,10 @@ fn parse_style_c<C: ColNum>(t: &mut Toks) -> PrimitiveStyle<C> {
     b.build()
 }
 
+fn trait_contains<T: ContainsPoint>(t: &T, p: Point) -> bool {
+    ContainsPoint::contains(t, p)
+}
+
 /// `pixels()` of one styled shape (Rgb565) as an iterator: nth / fold / count / last / skip / step_by / size_hint agree
 /// with the plain `next()` sequence, also after some `next()` calls.
 fn pixels_protocol(op: &str, ctx: &mut Ctx) {
@@ -489,10 +493,17 @@ impl Module for M {
                         let sa = s.stroke_area();
                         let bb = s.bounding_box().envelope(&$p.bounding_box()).offset(3);
                         let mut bad = Vec::new();
+                        let mut area_api_differs = 0u32;
                         let mut probe = |pt: Point, got: Option<u32>| {
-                            let want = if fa.contains(pt) {
+                            // `contains` through the `ContainsPoint` trait (what generic code calls) and by method syntax
+                            // (for Rectangle the inherent method of the core crate: a second copy) must agree
+                            let (fin, sin) = (trait_contains(&fa, pt), trait_contains(&sa, pt));
+                            if fin != fa.contains(pt) || sin != sa.contains(pt) {
+                                area_api_differs += 1;
+                            }
+                            let want = if fin {
                                 style.fill_color.map(|c| c.num())
-                            } else if sa.contains(pt) && style.stroke_width > 0 {
+                            } else if sin && style.stroke_width > 0 {
                                 style.stroke_color.map(|c| c.num())
                             } else {
                                 None
@@ -512,6 +523,10 @@ impl Module for M {
                                 probe(pt, Some(*c));
                             }
                         }
+                        drop(probe);
+                        ctx.expect(area_api_differs == 0, &format!("C06:area-contains-trait-vs-method:{}", kind), || {
+                            format!("{} probe(s) where ContainsPoint::contains and .contains() of fill_area() / stroke_area() differ", area_api_differs)
+                        });
                         // an inside stroke never paints outside the shape, an outside stroke never inside it
                         let mut side_bad = 0usize;
                         if style.stroke_width > 0 && style.stroke_color.is_some() {
